@@ -21,7 +21,8 @@
        index only if all N-1 are occupied (which index is chosen matters only to C19, where the
        restored instance must choose what the unsaved one chooses);
      * ids are pairs [h, l] to base B (value h*B+l; B = 65536 for real traces, TLC integers are
-       32-bit), mappings are [i, e, r] = (internal base, external base, range); range 0 = none. *)
+       32-bit), mappings are [i, e, r] = (internal base, external base, range); for the global option range 0 = none,
+       a mount's own mapping with range 0 is a mapping that translates nothing (and replaces the global one). *)
 EXTENDS Integers, Sequences, FiniteSets, TLC
 CONSTANTS N,     \* number of indices (256 in the code); index 0 = pseudo file system
           B      \* id base
@@ -35,8 +36,12 @@ IdGe(a, b) == a.h > b.h \/ (a.h = b.h /\ a.l >= b.l)
 IdLt(a, b) == ~IdGe(a, b)
 IdSub(a, b) == IF a.l >= b.l THEN Id(a.h - b.h, a.l - b.l) ELSE Id(a.h - b.h - 1, a.l + B - b.l)   \* a >= b
 IdAdd(a, b) == LET s == a.l + b.l IN Id((a.h + b.h + s \div B) % B, s % B)                         \* modulo B*B
-NoMap == [i |-> Zero, e |-> Zero, r |-> Zero]
-IsMap(m) == m.r # Zero
+\* NoMap = "no mapping" (None): distinct from every mapping a caller can give, also from one with an empty range
+NoMap == [i |-> Id(-1, -1), e |-> Id(-1, -1), r |-> Zero]
+Given(m) == m # NoMap              \* a mount was given its own mapping (Some), whatever its range
+IsMap(m) == m.r # Zero             \* the mapping translates something
+\* the global option: an empty range means that no mapping is configured (Vfs::new). A mount's OWN mapping is
+\* taken as given: Some((i, e, 0)) translates nothing on that mount and still takes the place of the global one
 Canon(m) == IF IsMap(m) THEN m ELSE NoMap
 \* the library's arithmetic: value inside [from, from+r) moves to the same offset from `to`
 Remap(v, from, to, r) == IF IdGe(v, from) /\ IdLt(IdSub(v, from), r) THEN IdAdd(IdSub(v, from), to) ELSE v
@@ -67,7 +72,7 @@ Occupied(i) == slot[i] # Vacant
 Full == \A i \in 1..N-1 : Occupied(i)
 
 \* the mapping a mount uses: its own if it was given one, else the global one
-AEff(idx) == IF IsMap(given[idx]) THEN given[idx] ELSE gmap
+AEff(idx) == IF Given(given[idx]) THEN given[idx] ELSE gmap
 
 (* ------------------------------------------------------------------------------------------ *)
 (* pseudo tree; a path is the raw list of components of the string split at '/'
@@ -117,7 +122,7 @@ AMountEff(comps, b, m, rt, idx) ==
      /\ pn' = r.t /\ nextino' = r.next
      /\ slot' = [i \in 0..N-1 |-> IF i = idx THEN b ELSE IF i = old /\ old # 0 THEN Vacant ELSE slot[i]]
      /\ mroot' = [i \in 0..N-1 |-> IF i = idx THEN rt ELSE IF i = old /\ old # 0 THEN NoRoot ELSE mroot[i]]
-     /\ given' = [i \in 0..N-1 |-> IF i = idx THEN Canon(m) ELSE IF i = old /\ old # 0 THEN NoMap ELSE given[i]]
+     /\ given' = [i \in 0..N-1 |-> IF i = idx THEN m ELSE IF i = old /\ old # 0 THEN NoMap ELSE given[i]]
      /\ mp' = (r.node :> idx) @@ mp
      /\ issued' = {x \in issued : x[1] # idx /\ x[1] # old}
      /\ UNCHANGED <<gmap, inited, negopt, noopen, noopendir>>
